@@ -6,6 +6,7 @@ import (
 	"go/types"
 	"os"
 	"sort"
+	"strconv"
 	"strings"
 
 	"golang.org/x/tools/go/ssa"
@@ -113,28 +114,30 @@ type arm struct {
 }
 
 type bloc struct {
-	id     int
-	proc   *bproc
-	key    string
-	frames []*frameTpl
-	kind   int
-	arms   []arm // send/recv/select arms
-	block  bool  // select is blocking
+	id      int
+	proc    *bproc
+	key     string
+	frames  []*frameTpl
+	kind    int
+	arms    []arm // send/recv/select arms
+	block   bool  // select is blocking
 	commaOk bool
-	instr  ssa.Instruction
-	wgKey  string
-	done   bool
-	desc   string
+	instr   ssa.Instruction
+	wgKey   string
+	done    bool
+	desc    string
 }
 
 type bproc struct {
-	idx   int
-	p     *Proc
-	pc    *term.T
-	start *bloc
-	exit  *bloc
-	locs  []*bloc
-	sleep *term.T // wake-up deadline while at a Sleep location
+	idx       int
+	p         *Proc
+	pc        *term.T
+	start     *bloc
+	exit      *bloc
+	locs      []*bloc
+	sleep     *term.T // wake-up deadline while at a Sleep location
+	idle      *bloc   // spawned processes: not started yet
+	spawnArgs []*term.T
 }
 
 type outcome struct {
@@ -169,24 +172,24 @@ type bpath struct {
 }
 
 type btrans struct {
-	id      int
-	procs   []*bproc
-	src     []*bloc
-	dst     []*bloc
-	guard   *term.T
-	upd     map[*term.T]*term.T
-	asserts []assertRec
-	covers  []string
-	inputs  []*term.T
-	label   string
+	id       int
+	procs    []*bproc
+	src      []*bloc
+	dst      []*bloc
+	guard    *term.T
+	upd      map[*term.T]*term.T
+	asserts  []assertRec
+	covers   []string
+	inputs   []*term.T
+	label    string
 	panicMsg string
-	chans   map[int]bool
-	reads   map[string]bool
-	writes  map[string]bool
-	wgs     map[string]bool
-	clock   bool
-	env     bool
-	choices [][2]string
+	chans    map[int]bool
+	reads    map[string]bool
+	writes   map[string]bool
+	wgs      map[string]bool
+	clock    bool
+	env      bool
+	choices  [][2]string
 }
 
 type bmcSys struct {
@@ -226,11 +229,13 @@ type bmcSys struct {
 	quiesc   *term.T
 	libExit  *term.T
 
-	verbose bool
-	objSeq  int
-	prunedHeap map[*Object]Value
-	constCells map[*term.T]bool
+	verbose      bool
+	objSeq       int
+	prunedHeap   map[*Object]Value
+	constCells   map[*term.T]bool
 	extractRound int
+	spawned      map[string][]*bproc
+	dynChans     map[string]*dynChan
 }
 
 func (b *bmcSys) logf(format string, a ...interface{}) {
@@ -470,7 +475,276 @@ func (b *bmcSys) hooks() *bmcHooks {
 		intrinsic: func(m *Machine, name string, fn *ssa.Function, args []Value) *modelRes {
 			return b.intrinsic(m, name, fn, args)
 		},
+		spawn: func(m *Machine, fr *Frame, in *ssa.Go, f *FuncV, args []Value) {
+			b.spawn(m, fr, in, f, args)
+		},
+		makeChan: func(m *Machine, cap int, et types.Type, name string) *Chan {
+			return b.makeChan(m, cap, et, name)
+		},
 	}
+}
+
+// spawn handles a `go` statement executed by a running goroutine. The children
+// of one spawn site (per parent and per shape of the closure/arguments) are
+// processes of their own that exist from the beginning in an "idle" location;
+// the spawning transition starts the first instance that is idle or has exited
+// (its state is dead then). There are `spawn` instances per site (parameter,
+// default 1); needing more is a model limit (the job is run again with more).
+func (b *bmcSys) spawn(m *Machine, fr *Frame, in *ssa.Go, fv *FuncV, args []Value) {
+	f := b.f
+	parent := m.curProc.idx(b)
+	site := fmt.Sprintf("spawn.p%d.%s.%d.%d", parent, fr.fn.String(), in.Block().Index, instrIndex(in))
+	id := fmt.Sprintf("%p", fv.Fn)
+	for _, x := range fv.Free {
+		id += "," + spawnShape(m, x, 0)
+	}
+	for _, a := range args {
+		id += "," + spawnShape(m, a, 0)
+	}
+	key := site + "|" + id
+	kids := b.spawned[key]
+	if kids == nil {
+		n := 1
+		if v, ok := b.job.Params["spawn"]; ok && v > 0 {
+			n = v
+		}
+		for k := 0; k < n; k++ {
+			p := &Proc{Name: fmt.Sprintf("%s#s%d", fv.Fn.Name(), len(b.procs)), Lib: m.curProc.Lib}
+			child := &bproc{idx: len(b.procs), p: p}
+			// scalar arguments and captured values are copied into state variables of the
+			// child at the spawning transition (the parent's registers change afterwards);
+			// goroutine-local cells of the parent that the child captures are frozen
+			cx := &spawnCtx{b: b, m: m, child: child, seen: map[*Object]*Object{}}
+			cf := *fv
+			cf.Free = nil
+			for _, x := range fv.Free {
+				cf.Free = append(cf.Free, cx.copy(x))
+			}
+			p.Fn = &cf
+			for _, a := range args {
+				p.Args = append(p.Args, cx.copy(a))
+			}
+			child.start = &bloc{id: len(b.locs), proc: child, kind: opStart, key: "start", desc: "start"}
+			b.locs = append(b.locs, child.start)
+			child.exit = &bloc{id: len(b.locs), proc: child, kind: opExit, key: "exit", desc: "exit", done: true}
+			b.locs = append(b.locs, child.exit)
+			child.idle = &bloc{id: len(b.locs), proc: child, kind: opExit, key: "idle", desc: "idle (not started yet)", done: true}
+			b.locs = append(b.locs, child.idle)
+			child.locs = []*bloc{child.start, child.exit, child.idle}
+			child.pc = b.newState(fmt.Sprintf("pc.p%d", child.idx), term.Int, f.IntC(int64(child.idle.id)))
+			b.procs = append(b.procs, child)
+			kids = append(kids, child)
+		}
+		if b.spawned == nil {
+			b.spawned = map[string][]*bproc{}
+		}
+		b.spawned[key] = kids
+	}
+	cur := func(v *term.T) *term.T {
+		if u, ok := m.pathUpd[v]; ok {
+			return u
+		}
+		return v
+	}
+	taken := f.False() // an earlier instance is free
+	for _, child := range kids {
+		pc := cur(child.pc)
+		free := f.Or(f.Eq(pc, f.IntC(int64(child.idle.id))), f.Eq(pc, f.IntC(int64(child.exit.id))))
+		sel := f.And(free, f.Not(taken))
+		taken = f.Or(taken, free)
+		m.pathUpd[child.pc] = f.Ite(sel, f.IntC(int64(child.start.id)), pc)
+		cx := &spawnCtx{b: b, m: m, child: child, seen: map[*Object]*Object{}, bind: true, sel: sel}
+		for _, x := range fv.Free {
+			cx.copy(x)
+		}
+		for _, a := range args {
+			cx.copy(a)
+		}
+	}
+	m.asserts = append(m.asserts, assertRec{label: modelLimit + "spawn (more live goroutines of one go statement than the " + strconv.Itoa(len(kids)) + " modelled)", cond: taken})
+}
+
+// makeChan: a channel made by a running goroutine is one channel per process
+// and call-stack site; the site may run once (a second execution while the
+// first channel may still be in use is a model limit).
+func (b *bmcSys) makeChan(m *Machine, cap int, et types.Type, name string) *Chan {
+	var sb strings.Builder
+	fmt.Fprintf(&sb, "p%d", m.curProc.idx(b))
+	for _, fr := range m.stack {
+		fmt.Fprintf(&sb, "/%s.%d.%d", fr.fn.String(), fr.blk.Index, fr.idx)
+	}
+	key := sb.String()
+	dc := b.dynChans[key]
+	if dc == nil {
+		c := &Chan{ID: len(m.W.Chans), Cap: cap, ElemT: et, Name: name}
+		m.W.Chans = append(m.W.Chans, c)
+		dc = &dynChan{c: c, made: b.newState(fmt.Sprintf("made.ch%d", c.ID), term.Bool, b.f.False())}
+		if b.dynChans == nil {
+			b.dynChans = map[string]*dynChan{}
+		}
+		b.dynChans[key] = dc
+		b.chanState(c)
+	}
+	if dc.c.Cap != cap {
+		unsupported("a make(chan) site with varying capacity")
+	}
+	cur := dc.made
+	if u, ok := m.pathUpd[dc.made]; ok {
+		cur = u
+	}
+	m.asserts = append(m.asserts, assertRec{label: modelLimit + "a goroutine executes one make(chan) more than once", cond: b.f.Not(cur)})
+	m.pathUpd[dc.made] = b.f.True()
+	return dc.c
+}
+
+type dynChan struct {
+	c    *Chan
+	made *term.T
+}
+
+// modelLimit prefixes assertions about the limits of the model itself: when one
+// can fail the job is inconclusive (never a violation of the property).
+const modelLimit = "model-limit: "
+
+// spawnShape identifies a value handed to a spawned goroutine up to its
+// non-constant scalars (those are copied into the child's own state variables).
+func spawnShape(m *Machine, v Value, depth int) string {
+	if depth > 8 {
+		unsupported("deeply linked goroutine-local objects handed to a spawned goroutine")
+	}
+	switch x := v.(type) {
+	case *term.T:
+		if !x.IsConst() {
+			return fmt.Sprintf("t:%v", x.S)
+		}
+	case *StructV:
+		r := "{"
+		for _, e := range x.F {
+			r += spawnShape(m, e, depth) + ","
+		}
+		return r + "}"
+	case *ArrayV:
+		r := "["
+		for _, e := range x.E {
+			r += spawnShape(m, e, depth) + ","
+		}
+		return r + "]"
+	case *FuncV:
+		if x != nil && x.Fn != nil {
+			r := fmt.Sprintf("f:%p(", x.Fn)
+			for _, e := range x.Free {
+				r += spawnShape(m, e, depth) + ","
+			}
+			return r + ")"
+		}
+	case *PtrV:
+		if isLocalPtr(x) {
+			return fmt.Sprintf("L%v{%s}", x.Path, spawnShape(m, m.objVal(x.Obj), depth+1))
+		}
+	}
+	return valueID(v)
+}
+
+func isLocalPtr(x *PtrV) bool {
+	return x != nil && x.Arena == nil && x.Obj != nil && strings.HasPrefix(x.Obj.Name, "local:")
+}
+
+// spawnCtx walks the values handed to a spawned goroutine. In copy mode it
+// builds the child's view (state variables for non-constant scalars, frozen
+// copies of captured goroutine-local cells); in bind mode (same traversal) it
+// makes the spawning transition assign those state variables.
+type spawnCtx struct {
+	b     *bmcSys
+	m     *Machine
+	child *bproc
+	seen  map[*Object]*Object
+	n     int
+	bind  bool
+	sel   *term.T
+}
+
+func (cx *spawnCtx) copy(v Value) Value {
+	b := cx.b
+	switch x := v.(type) {
+	case *term.T:
+		if x.IsConst() {
+			return x
+		}
+		if cx.bind {
+			if cx.n >= len(cx.child.spawnArgs) || cx.child.spawnArgs[cx.n].S != x.S {
+				unsupported("goroutines of one go statement with differently shaped arguments")
+			}
+			sv := cx.child.spawnArgs[cx.n]
+			old := sv
+			if u, ok := cx.m.pathUpd[sv]; ok {
+				old = u
+			}
+			cx.m.pathUpd[sv] = b.f.Ite(cx.sel, x, old)
+			cx.n++
+			return x
+		}
+		sv := b.newState(fmt.Sprintf("spawnarg.p%d.%d", cx.child.idx, cx.n), x.S, zeroOfSort(b.f, x.S))
+		cx.child.spawnArgs = append(cx.child.spawnArgs, sv)
+		cx.n++
+		return sv
+	case *StructV:
+		r := &StructV{}
+		for _, e := range x.F {
+			r.F = append(r.F, cx.copy(e))
+		}
+		return r
+	case *ArrayV:
+		r := &ArrayV{}
+		for _, e := range x.E {
+			r.E = append(r.E, cx.copy(e))
+		}
+		return r
+	case *FuncV:
+		if x == nil || x.Fn == nil {
+			return v
+		}
+		cf := *x
+		cf.Free = nil
+		for _, e := range x.Free {
+			cf.Free = append(cf.Free, cx.copy(e))
+		}
+		return &cf
+	case *PtrV:
+		if x != nil && x.Arena != nil && x.Idx != nil && !x.Idx.IsConst() {
+			unsupported("a symbolic arena pointer handed to a spawned goroutine")
+		}
+		if !isLocalPtr(x) {
+			return v
+		}
+		// a goroutine-local cell of the parent captured by the child: the child gets a
+		// frozen copy; neither side may write it afterwards (checked in store)
+		cx.m.escaped[x.Obj] = true
+		fo, ok := cx.seen[x.Obj]
+		if !ok {
+			fo = &Object{T: x.Obj.T, Name: fmt.Sprintf("frozen:p%d.%d", cx.child.idx, len(cx.seen)), Frozen: true, Setup: true}
+			b.objSeq++
+			fo.ID = 5000000 + b.objSeq
+			cx.seen[x.Obj] = fo
+			fo.Val = cx.copy(cx.m.objVal(x.Obj))
+		}
+		return &PtrV{Obj: fo, Path: x.Path}
+	case *IfaceV:
+		if x != nil && x.Tag != nil {
+			unsupported("a symbolic interface handed to a spawned goroutine")
+		}
+		if x != nil && x.Dyn != nil {
+			c := *x
+			c.V = cx.copy(x.V)
+			return &c
+		}
+		return v
+	case *SliceV:
+		if x != nil && x.Obj != nil && strings.HasPrefix(x.Obj.Name, "local:") {
+			unsupported("a goroutine-local slice handed to a spawned goroutine")
+		}
+		return v
+	}
+	return v
 }
 
 func instrIndex(in ssa.Instruction) int {
@@ -566,7 +840,11 @@ func (b *bmcSys) intrinsic(m *Machine, name string, fn *ssa.Function, args []Val
 		cs := []*term.T{}
 		for _, p := range b.procs {
 			if p.p.Lib {
-				cs = append(cs, f.Eq(p.pc, f.IntC(int64(p.exit.id))))
+				gone := f.Eq(p.pc, f.IntC(int64(p.exit.id)))
+				if p.idle != nil {
+					gone = f.Or(gone, f.Eq(p.pc, f.IntC(int64(p.idle.id))))
+				}
+				cs = append(cs, gone)
 			}
 		}
 		return &modelRes{v: f.And(cs...)}
@@ -652,7 +930,11 @@ func (b *bmcSys) libExited() *term.T {
 	cs := []*term.T{}
 	for _, p := range b.procs {
 		if p.p.Lib && !p.p.Daemon {
-			cs = append(cs, b.f.Eq(p.pc, b.f.IntC(int64(p.exit.id))))
+			gone := b.f.Eq(p.pc, b.f.IntC(int64(p.exit.id)))
+			if p.idle != nil {
+				gone = b.f.Or(gone, b.f.Eq(p.pc, b.f.IntC(int64(p.idle.id))))
+			}
+			cs = append(cs, gone)
 		}
 	}
 	return b.f.And(cs...)
